@@ -151,7 +151,7 @@ def leaves(mol, comps, level):
     for c in comps:
         levels.append(list(c) if level not in ('lite2', 'hub') else [c[0], c[-1]] if (len(c) > 1 and level != 'hub') else [c[0]])
     levels.append(list(range(len(styles))))
-    levels.append(['string'] if level == 'hub' else ['graph', 'string', 'graph-rev'] if level != 'lite2' else ['graph', 'graph-rev'])
+    levels.append(['string'] if level == 'hub' else ['graph', 'string', 'graph-rev'] if level != 'lite2' else ['graph'])
 
     def succ(prefix):
         d = len(prefix)
